@@ -490,6 +490,17 @@ impl EnvFilter {
                 if enabled_by_cs {
                     return true;
                 }
+                // Another thread may be registering this callsite right now: a
+                // thread that loses that race is told `Interest::sometimes()`
+                // and ends up here before `register_callsite` has stored the
+                // callsite's matcher. Decide the way `register_callsite` does,
+                // rather than disabling a span that a directive cares about.
+                if let Some(matcher) = self.dynamics.matcher(metadata) {
+                    if let Ok(mut by_cs) = self.by_cs.write() {
+                        by_cs.entry(metadata.callsite()).or_insert(matcher);
+                    }
+                    return true;
+                }
             }
 
             let enabled_by_scope = {
